@@ -34,7 +34,7 @@ var refusalCandidates = [][]byte{
 	[]byte(" "), []byte("\n"), []byte("*"), []byte("_"), []byte("<"), []byte(">"), []byte("^"), []byte("."), []byte("-1"),
 	[]byte("\x00"), []byte("\xff\xfe"), []byte("@root|$"), []byte("{{.x}}"), []byte("+"), []byte("#1"), []byte("\t1"),
 	[]byte(strings.Repeat("9", 256)), []byte(strings.Repeat("z", 300)), []byte("1" + strings.Repeat("0", 255)),
-	[]byte("\n1"), []byte(" 1"), []byte("/1"), []byte("(0)"),
+	[]byte("\n1"), []byte(" 1"), []byte("/1"), []byte("(0)"), []byte("\r"), []byte("\r\n"), []byte("\n\n"),
 	[]byte(" " + strings.Repeat("x", 250)), []byte(strings.Repeat("*", 300)), []byte("\n" + strings.Repeat("1", 220)), []byte("-" + strings.Repeat("0", 254)),
 }
 
@@ -45,6 +45,7 @@ func runC17(c *core.Ctx) *core.Outcome {
 	cfg.Backend = t.Weighted(4, 2, 1, 2)
 	cfg.FinishAlways = t.Chance(1, 2)
 	cfg.SetSession = t.Chance(1, 2)
+	cfg.ResetOnEmpty = t.Chance(1, 4) // the reset belongs to an EMPTY input; what is refused stays without effect under this option too
 	a := app.Generate(t, fullProfile(t, cfg.FlagCount))
 	if err := a.Validate(); err != nil {
 		panic("generator produced ill-formed app: " + err.Error())
